@@ -238,7 +238,7 @@ def run(out, exe, tier, res):
     out.distinct_nontrivial = len(distinct)
     out.samples = samples + out.samples
     out.rule = ("event logs in both directions. library->reference: for every protocol the library seals/signs messages of EVERY length 0..130 (public: strided), the "
-                "boundary catalogue to 4 KiB, 64 KiB (thorough 256 KiB) and random lengths, with footer/assertion in {none, explicit empty, ASCII, non-ASCII, JSON, random}, plus series of tokens sealed through ONE key object and series sealed from ONE core builder object (every token of a series is judged); "
+                "boundary catalogue to 4 KiB, 64 KiB (thorough 256 KiB) and random lengths, with footer/assertion in {none, explicit empty, ASCII, non-ASCII, JSON, random}, every fifth record re-using the previous record's nonce under another key, messages that begin with a byte-order mark / white space, plus series of tokens sealed through ONE key object and series sealed from ONE core builder object (every token of a series is judged); "
                 "the reference recomputes local tokens from (key, nonce, message, footer, assertion) and demands byte identity, verifies public tokens, opens builder-produced "
                 "tokens (generic and batteries layers, random internal nonce), and checks that the footer segment is present iff the footer is non-empty. reference->library: "
                 "the reference builds a token for the same inputs with a fresh nonce/salt, plus v1.local tokens whose wire nonce puts the AES-CTR counter at 8/32/64/128-bit "
